@@ -92,6 +92,15 @@ def coll_vocab():
     out.append((("coll", "", inner[0]), ("coll", "+", inner[1]),
                 ("coll", "-", inner[2])))
     out.append((("key", "x"), ("coll", "", inner[1]), ("idx", 0)))
+    # an operator-less collector AFTER a collector that had an operator (the
+    # pending operator must not stick), adjacent and with segments between
+    for op in ("+", "-", "&"):
+        for mid in ((), (("key", "k"),), (("idx", 0),),
+                    (("search", "k", "=", "1", False),)):
+            out.append((("coll", "", inner[0]), ("coll", op, inner[1])) + mid
+                       + (("coll", "", inner[2]),))
+            out.append((("coll", "", inner[0]), ("coll", op, inner[1])) + mid
+                       + (("coll", "", inner[2]), ("coll", op, inner[0])))
     return out
 
 
